@@ -59,5 +59,24 @@ def run(chk):
     chk.cov["traces_validated_against_impl"] += len(arows) + len(rows)
     chk.sample({"direction": "A", "row": {k: (v if not isinstance(v, list) else v[:8]) for k, v in arows[5].items()}})
     chk.sample({"direction": "A", "float_row": rows[1500]})
+    # 4. direction B: From<f32> / From<f64> as a step function of the bit pattern. Every non-NaN f32 pattern (4 278 190 082)
+    #    and every f32 NaN is visited; the maximal runs of equal results are decided by Trace_ActionSteps (exact arithmetic on
+    #    the runs' end points, tiling of the whole line); f64: windows of consecutive patterns around every break point,
+    #    fixed point, +-1, +-0, subnormals, +-inf (window 3000 quick / 200000 thorough patterns each side)
+    f = os.path.join(wd, "steps.ndjson")
+    summ = lines_of(run_harness(yv, ["action-steps", f, "3000" if chk.tier == "quick" else "200000"], timeout=1800))[-1]
+    ok, info, r = tlc_trace("Trace_ActionSteps", "Trace_ActionSteps.cfg", f, timeout=1200)
+    if ok:
+        chk.add_tlc("Trace_ActionSteps.cfg", r, {"what": "runs of equal From<f32>/From<f64> results, end points decided exactly"})
+    else:
+        ev = info.get("event", {})
+        chk.finding("Action:from_%s:steps" % ev.get("ty", "?"), {"stage": "B:steps", "matched": info.get("matched"), "event": ev,
+                    "what": "a maximal run of equal results is not the run the specification's step function gives (end points as m*2^e), "
+                            "or the runs do not tile the line / the Option and reference forms disagree / a NaN is not None"})
+    chk.stage("B:steps", **{k: v for k, v in summ.items() if k != "kind"})
+    chk.cov["traces_validated_against_impl"] += summ["runs"]
+    chk.sample({"direction": "B", "steps": summ})
+    chk.assumptions += ["the f32 sweep relies on the monotonicity of the SPECIFIED step function between the two end points of a run "
+                        "(the implementation is observed at every pattern)"]
     chk.assumptions += ["actions coded as integers (Buy(s)=s, Sell(s)=-1-s, None=600)",
                         "From<f64> is specified as a step function of the exact real value; at the rational break points (2k+1)/510 either neighbour is admitted"]
